@@ -69,11 +69,10 @@ def generate_jakes_samples(
         instance, if a `shape` of (3, 2) was provided then the shape of the
         returned h will be (3, 2, NSamples).
     """
-    # Generate time samples
-    t = np.arange(
-        current_time,  # Start time
-        NSamples * Ts + current_time,
-        Ts * 1.0000000001)
+    # Generate time samples. Note that the number of elements must not
+    # depend on floating point rounding of "current_time" (which happens
+    # with np.arange(start, stop, step) for a large start time).
+    t = current_time + Ts * np.arange(NSamples)
 
     if phi_l is None:
         if shape is None:
@@ -90,7 +89,7 @@ def generate_jakes_samples(
     # Update the self._current_time variable with the value of the next
     # time sample that should be generated when _generate_time_samples
     # is called again.
-    new_current_time = t[-1] + Ts
+    new_current_time = current_time + NSamples * Ts
 
     h = (math.sqrt(1.0 / L) * np.sum(
         np.exp(1j * (2 * np.pi * Fd * np.cos(phi_l) * t + psi_l)), axis=0))
@@ -455,16 +454,16 @@ class JakesSampleGenerator(FadingSampleGenerator):
         if num_samples is None:
             num_samples = 1
 
-        # Generate a 1D numpy with the time samples
-        t = np.arange(
-            self._current_time,  # Start time
-            num_samples * self.Ts + self._current_time,
-            self.Ts * 1.0000000001)
+        # Generate a 1D numpy with the time samples. Note that the number
+        # of elements must be exactly `num_samples`, no matter how large
+        # self._current_time already is (np.arange(start, stop, step) with
+        # float arguments can return one element more or less).
+        t = self._current_time + self.Ts * np.arange(num_samples)
 
         # Update the self._current_time variable with the value of the next
         # time sample that should be generated when _generate_time_samples
-        # is called again.
-        self._current_time = t[-1] + self.Ts
+        # is called again (same update as skip_samples_for_next_generation)
+        self._current_time += num_samples * self.Ts
 
         # Now we will change the shape of the 't' variable to an
         # appropriated shape for later use.
